@@ -39,6 +39,16 @@ CLAIMED = {
    text="TLC checks, for every adapter kind and every outcome of resource code (value, overridden status, nil entity, error response with each subset of fields, other error, panic), that status, error header and the client's result are the prescribed ones and that the error object held by the resource is never modified. Each case is run through a real httptest server (an escaped panic shows as a broken connection) and the real client; the held object is compared before/after; per-key batch errors are checked under their key. Each recorded exchange is replayed by TLC on the specification's own actions.",
    note="harness-defined entity/path types with the generic Register*/client functions (not generated bindings); the root module's ErrorResponse has fewer fields, rows using the others are skipped there",
    design="5/C08"),
+ "C01": dict(
+   technique="TLA+ specs Values.tla / Wire.tla (abstract values of the VT schema family, reference JSON tree, reference ROR2 encoder and parser, Canon) checked by TLC (reference round trip, canonicalisation idempotent, delimiters structural); every enumerated value exported by TLC and replayed on bindings generated by /repo's current v2 generator: built by reflection, encoded and decoded in 5 flavours, compared with the specification's canonical value and the type's Equals",
+   text="TLC enumerates, for every VT schema, the base value and every single-position variation (each text of a 36-text pool covering every ROR2/JSON/URL metacharacter, control, non-ASCII and byte >= 0x80 in each string / bytes / fixed / map-key position; each numeric atom incl. extremes, signed zero, NaN, infinities, both sides of 1e21 and 1e-7; optional absent; containers empty/one/two; each union member; includes; defaults), checks the reference codec on itself and exports each value with its canonical form. The harness regenerates the bindings from the working tree, builds each value by reflection (never through the library's decoders), encodes with the real compact/pretty JSON, ROR2 header, path and query writers, decodes with the matching reader and compares field by field (bit-exact numbers) with Canon(v).",
+   note="the VT family stands for 'all schemas'; digits of numbers are compared by strconv in the harness, not modelled; the null member of nullable unions is left out (its wire form is not fixed by the statement); generated bindings come from the v2 generator only (the root generator has an older manifest format); open known findings: bytes >= 0x80 in JSON, defaults inherited through includes",
+   design="5/C01"),
+ "C03": dict(
+   technique="same TLA+ reference (Wire.tla) as independent oracle: emit direction compares the library's JSON (parsed by encoding/json) with the specification's tree and its ROR2 output (lexed, legality of literals from the specification's Reserved sets, parsed by a reference parser that mirrors ParseRor2) with the tree; accept direction feeds reference-encoded documents (key orders, whitespace, unknown fields, alternative escapes) to every real reader",
+   text="For every value TLC enumerates, the library's output in each flavour must be well-formed and denote exactly the value under the reference grammar (keys, bytes as one code point per byte, enum symbols, the three reserved float strings, '' for the empty string, reserved characters percent-encoded per context as RFC 3986 requires). Conversely 6 JSON variants, 2 escape variants for each of the 3 ROR2 flavours and the untyped reader are fed documents produced independently of the library and must yield Canon(v). TLC checks that the reference encoder and parser are mutually inverse on every value.",
+   note="the written protocol and RFC 3986 stand in for a Java peer; envelopes and headers are checked with C02; same value universe and exclusions as C01",
+   design="5/C03"),
 }
 
 NOT_YET = {}
